@@ -2,7 +2,8 @@
 from props import simcommon
 HARNESS = ["sim"]
 ASSUMPTIONS = ["fork-free DAGs produced by honest cores; cache sizes above the number of events (below the in-flight window is not claimed)",
-               "batching clause: known finding C03-batching-dependence (refuted in Coq, replayed on the code)"]
+               "batching clause: known finding C03-batching-dependence (refuted in Coq, replayed on the code)",
+               "theorems: round / witness / Lamport timestamp / strongly-see of a stored event are functions of its ancestry in per-event mode under static membership (C03_*_function_of_ancestry); admission, round-received, frames, blocks not yet covered"]
 def run(ctx):
     res = simcommon.run(ctx, "dagrun")
     findings, diffs = simcommon.findings_for(res, "C03", None)
